@@ -26,15 +26,26 @@ RULE = ("interleavings on one connection under virtual time, EXHAUSTIVE to depth
         "plus stream 'atomic' (implementation-level oracle only: the model's events are single actions): histories of GROUPS of 1..3 actions executed back-to-back inside ONE event-loop iteration, no library task running in between "
         "(cancel-then-read, timeout-fires-then-read, read-then-cancel, read-then-timeout, two or three messages in one read, partial read, close/reset/local close/issue next to any of them) - all ordered pairs of 15 actions after 6 prefixes, "
         "sampled triples, random group histories - with limit 1..3, on the plain connection and the secure session, requests entered through get/get_json/put/put_json/post/post_json and pipelined through protocol.send_bytes, "
-        "every response carrying a body of its own so that each completion is attributed from the accessory's own send log. "
-        "non-trivial = distinct (variant, limit, history)")
+        "every response carrying a body of its own so that each completion is attributed from the accessory's own send log; "
+        "plus stream 'multi' (implementation-level oracle only): 2..4 connection objects ALIVE AT ONCE in one loop - plain HomeKitConnections (limit 1..3) and IpPairings with real secure sessions, to 1..4 accessories "
+        "(two objects may share an accessory: an object given up without close() next to its replacement), staggered lifetimes, transports that report their loss 5 s / 40 s after close() so that a reconnection "
+        "creates the new protocol of a connection while the old one still holds unanswered requests - with requests (get/get_json/put/put_json/post/post_json/request/protocol.send_bytes), responses, events, partial reads, "
+        "cancellations, timeouts, peer close/reset, local close, reconnect interleaved ACROSS the connections, also inside one loop iteration: every ordered pair (action on A, action on B) after 4 prefixes in 6 object "
+        "configurations, replaced-protocol schedules, random histories, and single-connection histories of the older generators run one after the other in one world, earlier objects left as they ended; judged per request and "
+        "per object from the accessories' own logs (body tags name accessory, connection and response; event ids are global): own response or prompt disconnection error, request arrives on its own object's connection, "
+        "events reach their own object's listeners only. "
+        "non-trivial = distinct (variant, limit, history) / (objects, history)")
 TRUSTED = ["harness/simnet.py: virtual-time loop, in-memory transport (no data is delivered after close(); an exception escaping data_received closes the transport, as asyncio's selector transport does)",
            "harness/acc.py scaffold accessory for the secure variant", "asyncio.Semaphore wakes waiters in FIFO order",
-           "atomic stream: asyncio runs the timers due within its clock resolution (1 ns) in one loop iteration, in deadline order (used to place harness actions 2^-32 s before / after a request's 30 s timer)"]
+           "atomic stream: asyncio runs the timers due within its clock resolution (1 ns) in one loop iteration, in deadline order (used to place harness actions 2^-32 s before / after a request's 30 s timer)",
+           "multi stream: harness-side network with one accessory per host and one port per controller-side object (MultiNet); a 'slow-close' transport stops delivering at close() and calls connection_lost 5 s / 40 s later "
+           "(asyncio reports the loss only once the write buffer is drained)"]
 ASSUMPTIONS = ["one model event = one harness action followed by running the loop to quiescence at that virtual instant (stream 'atomic' lifts this: the actions of a group share one loop iteration; it has no model counterpart and is judged by the oracle alone)",
                "atomic stream: responses are attributed by byte-stream position - the response whose last byte is read answers the oldest request the accessory has received and not answered at that moment; "
                "callers enter the secure session only once it is up (no request is issued in the loop iteration that starts a reconnection)",
                "reconnection is refused by the simulated network until the explicit `reconnect` event (C10/C11 cover the supervisor); a request issued while down fails at once",
+               "multi stream: as for 'atomic'; in addition nothing is issued or sent on a secure connection whose pair-verify has not finished from the accessory's point of view "
+               "(with a slow-close transport the pair-verify of the reconnection waits behind the request that still holds the connection's semaphore on the old protocol)",
                "a message whose first part has arrived is completed before the accessory sends anything else (byte-stream order)",
                "HTTP parsing of the delivered bytes is C07's model; here the unit is the complete message"]
 EXPLANATION = ("Lean theorems C08_* over the FIFO attribution automaton HapVerif.ReqConn (in-order answers complete exactly the oldest request, events never complete a request, every abandonment fails all outstanding requests at that instant "
@@ -1151,12 +1162,784 @@ def run_atomic(ctx: Ctx, cases, base=1000003):
     return found
 
 
+# ----------------------------------------------------------------------------------------------------------------
+# stream "multi": SEVERAL connection objects alive in one event loop at the same time.  The property is stated per request:
+# it holds for every request of every connection of the process, whatever the other connections are doing.  The world has
+# one accessory per host (its own send log, its own body tags and event ids) and 2..4 controller-side objects (plain
+# HomeKitConnection with concurrency limit 1..3, or IpPairing with a real secure session), each told apart on the network by
+# the port it dials (harness bookkeeping only).  Two objects may talk to the SAME accessory (a connection object that was
+# given up by its user - not closed, its callers still waiting, its transport still delivering - next to its replacement),
+# and an object's transport may take a while to report its loss after close() (unflushed write buffer: asyncio delivers
+# connection_lost only once the buffer is drained) so that a reconnection creates the NEW protocol of a connection while
+# the OLD one still holds unanswered requests.  Judged exactly like stream 'atomic', per request and per object, from the
+# accessories' own logs.  No model counterpart (the model has one connection).
+#
+# a history is a list of groups 'x+y+z' (the actions of a group share ONE loop iteration); an action is `a:<units>` (virtual
+# time advances) or `<object>.<primitive>` with the primitives of stream 'atomic' (q:<id>:<m>, d:<msgs>[/], rest, c:<id>,
+# pc, pr, lc, R) and
+#   new          the object is created and connects (objects that are never created do not exist: staggered lifetimes)
+#   c / C        the oldest / newest caller of this object that is still waiting is cancelled
+#   drop         the user gives the object up WITHOUT closing it: nothing is called, its callers stay
+class MultiNet(simnet.Net):
+    def __init__(self, loop):
+        super().__init__(loop)
+        self.allow = {}      # port -> number of TCP connects that will succeed (refused otherwise)
+        self.sides = {}      # host -> accessory side (on_connect(t), on_write(t, data), frame(t, bytes))
+        self.slow = {}       # port -> seconds between transport.close() and connection_lost (0: next loop iteration)
+
+    async def start_connection(self, addr_infos, **kw):
+        host, port = addr_infos[0][3], addr_infos[0][4][1]
+        self.attempts.append((round(self.loop.time(), 6), [host]))
+        if self.allow.get(port, 0) <= 0:
+            raise ConnectionRefusedError("refused")
+        self.allow[port] -= 1
+        return simnet.FakeSock(host, port)
+
+    async def create_connection(self, factory, sock=None, **kw):
+        proto = factory()
+        t = simnet.FakeTransport(self, sock.host, proto, self.loop)
+        t.port = sock.port
+        delay = self.slow.get(sock.port, 0)
+        if delay:
+            def slow_close(t=t, delay=delay):
+                # close() with unsent data in the write buffer: reading stops at once, connection_lost comes later
+                if t.closing:
+                    return
+                t.closing = True
+                self.loop.call_later(delay, t._lost, None)
+            t.close = slow_close
+        proto.connection_made(t)
+        self.sides[sock.host].on_connect(t)
+        return t, proto
+
+    def on_write(self, t, data):
+        self.sides[t.host].on_write(t, data)
+
+
+def multi_host(acc):
+    return f"10.0.{acc}.1"
+
+
+async def scenario_multi(loop, objects, groups, seed):
+    """objects: name -> {"acc": accessory index, "variant": plain|secure, "limit": n, "slow": units}"""
+    from harness.refacc import Identity
+    rnd = random.Random(seed)
+    net = MultiNet(loop)
+    problems = []
+    trace = []
+    stats = {}
+    objs = {}                # name -> the created object: conn, events_seen
+    tasks = {}
+    outcome = {}             # id -> (outcome, units)
+    judged = set()
+    reported = set()
+    cancelled_by_harness = set()
+    issued = []
+    issued_by = {}           # id -> name of the object the caller used
+    written = {}             # id -> (transport, loop.time()) when an accessory received the request
+    acc_queue = {}           # transport -> ids received and not yet answered (every accessory answers in order, per connection)
+    sent_for = {}            # id -> tag of the answer the accessory sent for it
+    tag_owner = {}           # tag -> id (None: unsolicited)
+    unread = {}
+    marks = {}
+    gen_off = {}
+    fed_off = {}
+    expect_ok = {}
+    ev_sent = {}             # name -> event ids the accessory sent on that object's connections, in order
+    ev_owner = {}            # event id -> name
+    ev_definite = set()
+    harness_errors = []
+    group_state = {}
+    counter = itertools.count(1)
+    ports = {name: 5001 + i for i, name in enumerate(sorted(objects))}
+    name_of_port = {p: n for n, p in ports.items()}
+
+    def bump(k):
+        stats[k] = stats.get(k, 0) + 1
+
+    def units(x=None):
+        return int(round((loop.time() if x is None else x) * UNIT))
+
+    def flag(sig, key, text):
+        if (sig, key) not in reported:
+            reported.add((sig, key))
+            problems.append((sig, text))
+
+    def received(t, target):
+        try:
+            rid = int(target.rsplit("/", 1)[1])
+        except ValueError:
+            return
+        acc_queue.setdefault(t, []).append(rid)
+        written.setdefault(rid, (t, loop.time()))
+        who = name_of_port.get(t.port)
+        if rid in issued_by and issued_by[rid] != who:
+            flag("sent-on-wrong-connection", rid, f"request {rid}, issued through object {issued_by[rid]}, arrived at accessory {t.host} on a connection of object {who}")
+
+    class PlainSide:
+        def __init__(self):
+            self.bufs = {}
+
+        def on_connect(self, t):
+            pass
+
+        def on_write(self, t, data):
+            self.bufs[t] = self.bufs.get(t, b"") + data
+            while True:
+                b = self.bufs[t]
+                i = b.find(b"\r\n\r\n")
+                if i < 0:
+                    return
+                head = b[:i].split(b"\r\n")
+                cl = 0
+                for h in head[1:]:
+                    if h.lower().startswith(b"content-length:"):
+                        cl = int(h.split(b":")[1])
+                if len(b) < i + 4 + cl:
+                    return
+                self.bufs[t] = b[i + 4 + cl:]
+                received(t, head[0].split(b" ")[1].decode())
+
+        def frame(self, t, b):
+            return b
+
+    class SecureSide:
+        def __init__(self, idx):
+            rb = lambda n: bytes(rnd.randrange(256) for _ in range(n))  # noqa: E731
+            self.acc = Accessory(loop, net, rb)
+            self.acc.ident = Identity(rb, acc_id=b"12:34:56:00:02:%02X" % idx)
+            self.acc.responder = lambda s, method, target, body: received(s.t, target)
+            self.on_connect = self.acc.on_connect
+            self.on_write = self.acc.on_write
+
+        def frame(self, t, b):
+            return self.acc.frame(self.acc.sessions[t], b)
+
+    for name in sorted(objects):
+        spec = objects[name]
+        h = multi_host(spec["acc"])
+        if h not in net.sides:
+            net.sides[h] = PlainSide() if spec["variant"] == "plain" else SecureSide(spec["acc"])
+        if spec.get("slow"):
+            net.slow[ports[name]] = spec["slow"] / UNIT
+
+    def transports_of(name):
+        return [t for t in net.transports if getattr(t, "port", None) == ports[name]]
+
+    def cur(name):
+        for t in reversed(transports_of(name)):
+            if not (t.closing or t.closed):
+                return t
+        return None
+
+    def side_of(t):
+        return net.sides[t.host]
+
+    def session_up(t):
+        """the accessory's own view: it has completed pair-verify on this connection (always true for a plain accessory)"""
+        side = net.sides[t.host]
+        if isinstance(side, PlainSide):
+            return True
+        s_ = side.acc.sessions.get(t)
+        return s_ is not None and s_.secure
+
+    with net.patched():
+        t0 = units()
+
+        def create(name):
+            spec = objects[name]
+            seen = []
+            host = multi_host(spec["acc"])
+            if spec["variant"] == "plain":
+                owner = Owner()
+                owner.name = "plain-" + name
+
+                def plain_event(parsed, seen=seen):
+                    for c in parsed.get("characteristics", []):
+                        seen.append(c["iid"])
+                owner.event_received = plain_event
+                conn = HomeKitConnection(owner, [host], ports[name], concurrency_limit=spec["limit"])
+                keep = owner
+            else:
+                ctrl = MagicMock()
+                ctrl._char_cache = CharacteristicCacheMemory()
+                p = IpPairing(ctrl, net.sides[host].acc.pairing_data([host], ports[name]))
+                conn = p.connection
+
+                def listener(ev, seen=seen):
+                    for (aid, iid) in ev:
+                        seen.append(iid)
+                p.dispatcher_connect(listener)
+                keep = p
+            objs[name] = {"conn": conn, "seen": seen, "keep": keep, "variant": spec["variant"]}
+            net.allow[ports[name]] = 1
+            group_state[("connecting", name)] = True
+            tasks[("new", name)] = asyncio.ensure_future(conn.ensure_connection())
+
+        async def caller(conn, rid, m):
+            target = f"/r/{rid}"
+            try:
+                if m == "g":
+                    r = await conn.get(target)
+                elif m == "j":
+                    r = await conn.get_json(target)
+                elif m == "p":
+                    r = await conn.put(target, b'{"v":%d}' % rid)
+                elif m == "P":
+                    r = await conn.put_json(target, {"v": rid})
+                elif m == "o":
+                    r = await conn.post(target, b"\x01\x01\x00")
+                elif m == "O":
+                    r = await conn.post_json(target, {"v": rid})
+                elif m == "r":
+                    r = await conn.request(method="GET", target=target, headers=[("X-Req", str(rid))])
+                else:
+                    proto = conn.protocol
+                    if proto is None:
+                        raise AccessoryDisconnectedError("no protocol")
+                    r = await proto.send_bytes(f"GET {target} HTTP/1.1\r\nHost: 10.0.0.1\r\n\r\n".encode())
+                out = "ok:" + tag_of(r)
+            except AccessoryDisconnectedError:
+                out = "disc"
+            except asyncio.CancelledError:
+                outcome.setdefault(rid, ("canc", units()))
+                raise
+            except BaseException as e:  # noqa: BLE001
+                out = "other:" + type(e).__name__
+            outcome.setdefault(rid, (out, units()))
+
+        def feed(t, chunk):
+            if t.closing or t.closed or not chunk:
+                return
+            n_exc = len(net.data_received_raised)
+            waiting = {rid for rid in written if rid not in outcome and rid not in cancelled_by_harness and tasks.get(rid) is not None and not tasks[rid].done()
+                       and loop.time() - written[rid][1] < 30 - 4 * EPS and written[rid][0] is t}
+            t.feed(chunk)
+            raised = len(net.data_received_raised) > n_exc
+            fed_off[t] = fed_off.get(t, 0) + len(chunk)
+            rest_ = []
+            for end, kind, ident in marks.get(t, []):
+                if end > fed_off[t]:
+                    rest_.append((end, kind, ident))
+                elif kind == "e":
+                    if not raised:
+                        ev_definite.add(ident)
+                else:
+                    q = acc_queue.get(t) or []
+                    if q:
+                        rid = q.pop(0)
+                        sent_for[rid] = ident
+                        tag_owner[ident] = rid
+                        if rid in waiting and not raised:
+                            expect_ok[rid] = units()
+                    else:
+                        tag_owner[ident] = None
+                        bump("unsolicited")
+            marks[t] = rest_
+
+        def make(t, kind):
+            n = next(counter)
+            who = name_of_port[t.port]
+            if kind == "r":
+                ident = f"acc{t.host.split('.')[2]}-c{t.index}-B{n}"   # names the accessory, the connection and the response
+                raw = resp_tagged(ident, rnd.choice([0, 0, 0, 0, 1100, 2300]))
+            else:
+                ident = 1000 + n
+                ev_sent.setdefault(who, []).append(ident)
+                ev_owner[ident] = who
+                raw = event_bytes(ident)
+            data = side_of(t).frame(t, raw)
+            gen_off[t] = gen_off.get(t, 0) + len(data)
+            marks.setdefault(t, []).append((gen_off[t], kind, ident))
+            return data
+
+        def waiting_callers(name):
+            return [rid for rid in issued if issued_by[rid] == name and rid not in outcome and not tasks[rid].done() and rid not in cancelled_by_harness]
+
+        def act(full):
+            name, dot, prim = full.partition(".")
+            if not dot or name not in objects:
+                raise HarnessBug(full)
+            f = prim.split(":")
+            k = f[0]
+            if k == "new":
+                if name in objs:
+                    bump("noop")
+                else:
+                    create(name)
+                return
+            o = objs.get(name)
+            if o is None:
+                bump("noop")
+                return
+            conn = o["conn"]
+            t = cur(name)
+            if k == "q":
+                rid = int(f[1])
+                if rid in tasks:
+                    return
+                if o["variant"] == "secure" and (group_state.get(("connecting", name)) or (t is not None and not session_up(t))):
+                    # the session is being set up in this very loop iteration, or its pair-verify has not finished (see
+                    # ASSUMPTIONS: callers enter the secure session only once it is up - IpPairing gates every request on it)
+                    bump("noop")
+                    return
+                issued.append(rid)
+                issued_by[rid] = name
+                tasks[rid] = asyncio.ensure_future(caller(conn, rid, f[2] if len(f) > 2 else "g"))
+            elif k == "d":
+                if t is None or (o["variant"] == "secure" and not session_up(t)):
+                    # (an accessory sends responses and events of the secure session only once that session exists)
+                    bump("noop")
+                    return
+                spec = f[1]
+                partial = spec.endswith("/")
+                data = unread.pop(t, b"")
+                for ch in spec.rstrip("/"):
+                    data += make(t, ch)
+                if partial and len(data) > 1:
+                    c = rnd.randrange(1, len(data))
+                    unread[t] = data[c:]
+                    data = data[:c]
+                cuts = sorted(rnd.sample(range(1, len(data)), min(rnd.choice([0, 0, 0, 1, 3]), len(data) - 1)))
+                prev = 0
+                for c in cuts + [len(data)]:
+                    feed(t, data[prev:c])
+                    prev = c
+            elif k == "rest":
+                if t is not None and t in unread:
+                    feed(t, unread.pop(t))
+            elif k in ("c", "C"):
+                if len(f) > 1:
+                    rid = int(f[1])
+                else:
+                    w = waiting_callers(name)
+                    if not w:
+                        bump("noop")
+                        return
+                    rid = w[0] if k == "c" else w[-1]
+                tk = tasks.get(rid)
+                if tk is not None and not tk.done():
+                    cancelled_by_harness.add(rid)
+                    tk.cancel()
+            elif k == "pc":
+                if t is not None:
+                    t.peer_close()
+            elif k == "pr":
+                if t is not None:
+                    t.peer_reset()
+            elif k == "lc":
+                tasks[("lc", len(tasks))] = asyncio.ensure_future(conn.close())
+            elif k == "R":
+                if t is None:
+                    net.allow[ports[name]] = 1
+                    group_state[("connecting", name)] = True
+                    conn.reconnect_soon()
+            elif k == "drop":
+                bump("dropped-without-close")
+            else:
+                raise HarnessBug(full)
+
+        def act_all(prims):
+            try:
+                for x in prims:
+                    act(x)
+            except Exception as e:  # noqa: BLE001
+                harness_errors.append(e)
+
+        def judge(label):
+            now = loop.time()
+            for rid, tk in tasks.items():
+                if isinstance(rid, int) and tk.done() and rid not in outcome:
+                    outcome[rid] = ("canc" if tk.cancelled() else "other:task-ended", units())
+            obs = []
+            for rid in issued:
+                who = issued_by[rid]
+                if rid in outcome and rid not in judged:
+                    judged.add(rid)
+                    out, tm = outcome[rid]
+                    obs.append(f"{who}.D{rid}={out}@{(tm - t0) / UNIT:g}s")
+                    bump("outcome:" + out.split(":")[0])
+                    if out.startswith("other"):
+                        flag("wrong-error", rid, f"request {rid} (object {who}) failed with {out[6:]} instead of a disconnection error")
+                    if out == "canc" and rid not in cancelled_by_harness:
+                        flag("wrong-error", rid, f"request {rid} (object {who}) got CancelledError although its caller was not cancelled")
+                    if out.startswith("ok:"):
+                        tag = out[3:]
+                        if sent_for.get(rid) != tag:
+                            if tag_owner.get(tag) is not None:
+                                other = tag_owner[tag]
+                                where = "the same object" if issued_by.get(other) == who else f"object {issued_by.get(other)}: ANOTHER connection"
+                                flag("misattributed", rid, f"request {rid} (object {who}) completed with the response sent for request {other} ({where}; body tag {tag}); "
+                                     + (f"its own response was {sent_for[rid]}" if rid in sent_for else "its accessory had not answered it"))
+                            elif tag in tag_owner:
+                                flag("completed-with-unsolicited", rid, f"request {rid} (object {who}) completed with an unsolicited response (body tag {tag}) sent on a connection with no unanswered request")
+                            else:
+                                flag("completed-with-unknown", rid, f"request {rid} (object {who}) completed with a response no accessory ever sent (body tag {tag!r})")
+                    if rid in written:
+                        t, w = written[rid]
+                        if tm - units(w) > 30 * UNIT + 1:
+                            flag("late-completion", rid, f"request {rid} (object {who}) was written at t={(units(w) - t0) / UNIT:.3f}s and completed ({out.split(':')[0]}) only {(tm - units(w)) / UNIT:.3f}s later: "
+                                 "the 30 s bound on an unanswered request does not hold")
+                        if not out.startswith("ok:") and not (t.closing or t.closed):
+                            flag("not-abandoned", rid, f"request {rid} (object {who}) failed ({out}) while in flight but its connection (#{t.index} to {t.host}) was not abandoned: "
+                                 "nothing happened on that connection that ends a request, and a late response would be taken for a later request")
+                    if rid in expect_ok and not out.startswith("ok:") and rid not in cancelled_by_harness:
+                        flag("response-lost", rid, f"the response for request {rid} (object {who}) was read completely at t={(expect_ok[rid] - t0) / UNIT:.3f}s while the request was waiting for it, but the request ended with {out}")
+            for rid in issued:
+                if rid in outcome:
+                    continue
+                who = issued_by[rid]
+                if rid in written:
+                    t, w = written[rid]
+                    if t.closed:
+                        flag("hung-after-loss", rid, f"after {label}: the connection request {rid} (object {who}) was sent on is gone but the request neither completed nor failed")
+                    if units(now) - units(w) > 30 * UNIT + 1:
+                        flag("hung-past-deadline", rid, f"after {label} at t={(units(now) - t0) / UNIT:.3f}s: request {rid} (object {who}), written at t={(units(w) - t0) / UNIT:.3f}s, has neither completed nor failed "
+                             f"{(units(now) - units(w)) / UNIT:.3f}s later: it hangs past its 30 s timeout")
+                if rid in expect_ok:
+                    flag("response-lost", rid, f"after {label}: the response for request {rid} (object {who}) was read completely while the request was waiting for it, but the request is still pending")
+                if not any(not t.closed for t in transports_of(who)):
+                    flag("hung-after-loss", rid, f"after {label}: object {who} has no connection but its request {rid} is still pending")
+            for name, o in objs.items():
+                seen = o["seen"]
+                sent = ev_sent.get(name, [])
+                pos = {e: i for i, e in enumerate(sent)}
+                foreign = [e for e in seen if e not in pos]
+                if foreign and any(e in ev_owner for e in foreign):
+                    flag("event-misrouted", name, f"after {label}: the listener of object {name} saw EVENT(s) {foreign} that were sent on the connection of object {ev_owner.get(foreign[0])}")
+                elif foreign:
+                    flag("event-unknown", name, f"after {label}: the listener of object {name} saw an event no accessory sent: {seen} vs {sent}")
+                else:
+                    if len(set(seen)) != len(seen):
+                        flag("event-duplicated", name, f"after {label}: listener of object {name} saw {seen}")
+                    elif [pos[e] for e in seen] != sorted(pos[e] for e in seen):
+                        flag("event-reordered", name, f"after {label}: listener of object {name} saw {seen}, sent {sent}")
+                missing = [e for e in sent if e in ev_definite and e not in seen]
+                if missing:
+                    flag("event-lost", (name, missing[0]), f"after {label}: EVENT(s) {missing} were read completely on a live connection of object {name} but its listener did not see them")
+            if net.errors:
+                errs = [e for e in net.errors if not (e[0] == "data_received" and e[1] == "IndexError")]
+                if errs:
+                    flag("callback-raised", str(errs[0]), f"after {label}: {errs[0]}")
+                del net.errors[:]
+            up = ",".join(f"{n}:{sum(1 for t in transports_of(n) if not t.closed)}" for n in sorted(objs))
+            trace.append(f"{label} -> " + (" ".join(obs) or "-") + f" | open={up} t={(units(now) - t0) / UNIT:g}s")
+
+        try:
+            for g in groups:
+                prims = g.split("+")
+                group_state.clear()
+                run = []
+                for x in prims:
+                    if x.startswith("a:"):
+                        act_all(run)
+                        run = []
+                        await asyncio.sleep(int(x.split(":")[1]) / UNIT)
+                    else:
+                        run.append(x)
+                act_all(run)
+                if harness_errors:
+                    raise harness_errors[0]
+                await settle(loop)
+                for p_ in net.allow:
+                    net.allow[p_] = 0
+                for tr in list(unread):
+                    if tr.closing or tr.closed:
+                        del unread[tr]
+                if len(objs) > 1:
+                    n_busy = sum(1 for n in objs if any(issued_by[r] == n and r in written and r not in outcome for r in issued))
+                    if n_busy > 1:
+                        bump("instants-with-requests-outstanding-on-several-connections")
+                judge(g)
+        finally:
+            # leave nothing behind for the next history: every caller cancelled, every object closed, every pending loss delivered
+            for tk in tasks.values():
+                tk.cancel()
+            for o in objs.values():
+                try:
+                    await o["conn"].close()
+                except Exception:  # noqa: BLE001
+                    pass
+            await settle(loop)
+            for t in net.transports:
+                if not t.closed:
+                    t._lost(None)
+            await settle(loop)
+    return trace, problems, stats
+
+
+MULTI_SINGLES = ["q", "q", "q", "d:r", "d:r", "d:r", "d:e", "d:rr", "d:re", "d:er", "d:r/", "d:e/", "d:rer", "rest", "c", "C", "pc", "pr", "lc", "R", "R"]
+MULTI_ATOMS = ["q", "d:r", "d:rr", "d:e", "d:er", "d:r/", "c", "pc", "pr", "lc", f"a:{31 * UNIT}"]
+MULTI_CONFIGS = [
+    {"A": {"acc": 0, "variant": "plain", "limit": 2, "slow": 0}, "B": {"acc": 1, "variant": "plain", "limit": 2, "slow": 0}},
+    {"A": {"acc": 0, "variant": "plain", "limit": 1, "slow": 0}, "B": {"acc": 1, "variant": "secure", "limit": 1, "slow": 0}},
+    {"A": {"acc": 0, "variant": "plain", "limit": 3, "slow": 0}, "B": {"acc": 0, "variant": "plain", "limit": 1, "slow": 0}},   # two objects, one accessory
+    {"A": {"acc": 0, "variant": "plain", "limit": 2, "slow": 5 * UNIT}, "B": {"acc": 1, "variant": "plain", "limit": 2, "slow": 0}},
+    {"A": {"acc": 0, "variant": "secure", "limit": 1, "slow": 0}, "B": {"acc": 1, "variant": "secure", "limit": 1, "slow": 0}},
+    {"A": {"acc": 0, "variant": "secure", "limit": 1, "slow": 0}, "B": {"acc": 0, "variant": "secure", "limit": 1, "slow": 5 * UNIT}},
+]
+
+
+def number_multi(groups, rng, objects, start=0):
+    """give every bare '<obj>.q' its id and an entry point"""
+    rid = start
+    out = []
+    for g in groups:
+        prims = []
+        for x in g.split("+"):
+            name, dot, prim = x.partition(".")
+            if dot and prim == "q":
+                rid += 1
+                m = rng.choice("ssssgjP" if objects[name]["variant"] == "secure" else "gjpPoOrsss")
+                x = f"{name}.q:{rid}:{m}"
+            prims.append(x)
+        out.append("+".join(prims))
+    return out
+
+
+def on_obj(name, atom):
+    return atom if atom.startswith("a:") else f"{name}.{atom}"
+
+
+def gen_multi_pairs():
+    """two objects with requests outstanding on both; then every ordered pair (action on A, action on B), once as two
+    consecutive instants and once inside ONE loop iteration, in both orders of the objects; then both connections are used on"""
+    pres = [["A.q", "B.q"], ["A.q", "A.q", "B.q"], ["B.q", "A.q", "B.q"], ["A.q", "B.q", "A.d:r/"]]
+    tail = ["A.d:r", "B.d:r", "A.q+B.q", "B.d:r", "A.d:r", f"a:{31 * UNIT}"]
+    for pi, pre in enumerate(pres):
+        for x in MULTI_ATOMS:
+            for y in MULTI_ATOMS:
+                for same in (False, True):
+                    mid = [on_obj("A", x) + "+" + on_obj("B", y)] if same else [on_obj("A", x), on_obj("B", y)]
+                    yield pi, ["A.new+B.new"] + pre + mid + tail
+
+
+def gen_multi_replaced(rng):
+    """the protocol object of ONE connection is replaced while the old one still holds unanswered requests (its transport has
+    not reported the loss yet), and: an object is given up by its user without close() and a new object talks to the same accessory"""
+    out = []
+    for variant, limit in (("plain", 1), ("plain", 2), ("plain", 3), ("secure", 1)):
+        objects = {"A": {"acc": 0, "variant": variant, "limit": limit, "slow": 5 * UNIT}}
+        for pre in (["A.q"], ["A.q", "A.q"], ["A.q", "A.q", "A.q"]):
+            for give_up in (["A.lc"], ["A.c"], ["A.C"], [f"a:{30 * UNIT}"], ["A.d:rrrr"]):
+                for after in (["A.d:r", f"a:{6 * UNIT}", "A.q", "A.d:r"], [f"a:{2 * UNIT}", "A.q", f"a:{4 * UNIT}", "A.d:rr"], ["A.q", f"a:{6 * UNIT}", "A.d:r", "A.d:r"],
+                              [f"A.d:r+a:{5 * UNIT}", "A.d:r"], ["A.d:r/", f"a:{6 * UNIT}", "A.rest", "A.q", "A.d:r"]):
+                    out.append((objects, ["A.new"] + pre + give_up + ["A.R", "A.q", "A.q"] + after + [f"a:{31 * UNIT}"]))
+        objects = {"A": {"acc": 0, "variant": variant, "limit": limit, "slow": 0}, "B": {"acc": 0, "variant": variant, "limit": limit, "slow": 0}}
+        for pre in (["A.q"], ["A.q", "A.q"]):
+            for mid in (["B.d:r", "A.d:r"], ["A.d:r", "B.d:r"], ["B.d:r", f"a:{31 * UNIT}", "B.q", "B.d:r"], ["A.pc", "B.d:r"], ["A.c", "B.d:r"], ["B.d:e", "A.d:e", "B.d:r"], ["A.d:r+B.d:r"], ["B.d:r+A.pr"]):
+                out.append((objects, ["A.new"] + pre + ["A.drop", "B.new", "B.q"] + mid + ["B.q", "B.d:r", f"a:{31 * UNIT}"]))
+    return out
+
+
+def gen_multi_random(rng):
+    n = rng.choice([2, 2, 2, 3, 3, 4])
+    names = "ABCD"[:n]
+    objects = {}
+    for i, name in enumerate(names):
+        if i and rng.random() < 0.25:
+            # a further object for an accessory that already has one (its replacement, or a second user)
+            model = objects[rng.choice(sorted(objects))]
+            objects[name] = {"acc": model["acc"], "variant": model["variant"], "limit": model["limit"] if model["variant"] == "secure" else rng.randrange(1, 4), "slow": rng.choice([0, 0, 5 * UNIT])}
+        else:
+            variant = "secure" if rng.random() < 0.25 else "plain"
+            objects[name] = {"acc": i, "variant": variant, "limit": 1 if variant == "secure" else rng.randrange(1, 4), "slow": rng.choice([0, 0, 0, 5 * UNIT, 40 * UNIT])}
+    groups = []
+    late = [nm for nm in names[1:] if rng.random() < 0.3]
+    first = [nm for nm in names if nm not in late]
+    groups.append("+".join(f"{nm}.new" for nm in first))
+    alive = list(first)
+    for nm in first:
+        for _ in range(rng.randrange(0, 3)):
+            groups.append(f"{nm}.q")
+    body = groups[1:]
+    rng.shuffle(body)
+    groups = groups[:1] + body
+    for _ in range(rng.randrange(3, 16)):
+        r = rng.random()
+        if late and r < 0.15:
+            nm = late.pop(0)
+            alive.append(nm)
+            groups.append(f"{nm}.new")
+            groups.append(f"{nm}.q")
+            continue
+        if r < 0.3:
+            groups.append("a:%d" % rng.choice([UNIT, 5 * UNIT, 12 * UNIT, 20 * UNIT, 29 * UNIT, 31 * UNIT, 18 * UNIT + 2]))
+            continue
+        k = 1 if r < 0.6 else (2 if r < 0.88 else 3)
+        groups.append("+".join(f"{rng.choice(alive)}.{rng.choice(MULTI_SINGLES)}" for _ in range(k)))
+    for nm in alive:
+        if rng.random() < 0.5:
+            groups += [f"{nm}.q", f"{nm}.d:r"]
+    groups.append(f"a:{31 * UNIT}")
+    return objects, groups
+
+
+def to_multi(name, events):
+    """a single-connection history of stream 'reqconn' (tokens of gen_random / gen_waiting / gen_exhaustive) as actions of object `name`"""
+    out = []
+    for ev in events:
+        f = ev.split(":")
+        k = f[0]
+        if k == "q":
+            out.append(f"{name}.q")
+        elif k in ("r", "e"):
+            out.append(f"{name}.d:{k}")
+        elif k in ("hr", "he"):
+            out.append(f"{name}.d:{k[1]}/")
+        elif k == "c":
+            out.append(f"{name}.c" if int(f[1]) % 2 else f"{name}.C")
+        elif k == "a":
+            out.append(ev)
+        else:
+            out.append(f"{name}.{k}")
+    return out
+
+
+def gen_multi_serial(rng):
+    """single-connection histories run one after the other in ONE world, each on an object (and accessory) of its own, the
+    earlier objects left exactly as their history left them - not closed, callers not cancelled, half-read messages pending:
+    whatever an earlier connection leaves behind must not reach the next one"""
+    n = rng.choice([2, 2, 3, 4])
+    objects, groups = {}, []
+    for i, name in enumerate("ABCD"[:n]):
+        variant = "secure" if rng.random() < 0.2 else "plain"
+        objects[name] = {"acc": i, "variant": variant, "limit": 1 if variant == "secure" else rng.randrange(1, 4), "slow": rng.choice([0, 0, 0, 5 * UNIT])}
+        r = rng.random()
+        evs = gen_random(rng)[:14] if r < 0.45 else (gen_waiting(rng)[:10] if r < 0.7 else list(rng.choice(_SERIAL_EXH)))
+        groups.append(f"{name}.new")
+        groups += to_multi(name, evs)
+        if rng.random() < 0.3:
+            groups.append(f"{name}.q")    # ... and it ends with a request outstanding
+        elif rng.random() < 0.2:
+            groups.append(f"{name}.lc")   # ... or properly closed
+    groups.append(f"a:{31 * UNIT}")
+    return objects, groups
+
+
+_SERIAL_EXH = [["q", "q", "r:1"], ["q", "hr:1", "q"], ["q", "c:1"], ["q", "q", "c:2", "r:1"], ["q", f"a:{12 * UNIT}", "q", "he:9"], ["q", "q", "q", "r:1", "e:7"], ["q", "pc", "R", "q"],
+               ["q", "q", "lc", "R", "q"], ["q", f"a:{31 * UNIT}", "R", "q", "r:1"], ["q", "r:1", "r:2"], ["q", "q", "pr"]]
+
+
+def multi_cases(ctx, rng, factor=1):
+    cases = []
+    for c in load_corpus(ID):
+        if c.get("stream") == "multi":
+            cases.append((c["objects"], c["groups"], "corpus"))
+    pairs = list(gen_multi_pairs())
+    # the pairs after the plainest prefix on two plain connections to two accessories are always run in full; the rest is sampled
+    for pi, g in pairs:
+        if pi == 0:
+            cases.append((MULTI_CONFIGS[0], number_multi(g, rng, MULTI_CONFIGS[0]), "pairs"))
+    take = ctx.budget(350 * factor, len(pairs) * len(MULTI_CONFIGS))
+    for i in range(take):
+        cfg = MULTI_CONFIGS[i % len(MULTI_CONFIGS)]
+        pi, g = pairs[(i // len(MULTI_CONFIGS)) % len(pairs)] if take >= len(pairs) * len(MULTI_CONFIGS) else rng.choice(pairs)
+        cases.append((cfg, number_multi(g, rng, cfg), "pairs"))
+    rep = gen_multi_replaced(rng)
+    if not ctx.thorough() and len(rep) > 150 * factor:
+        rep = rng.sample(rep, 150 * factor)
+    for objects, g in rep:
+        cases.append((objects, number_multi(g, rng, objects), "replaced"))
+    for _ in range(ctx.budget(350 * factor, 12000)):
+        objects, g = gen_multi_random(rng)
+        cases.append((objects, number_multi(g, rng, objects), "random"))
+    for _ in range(ctx.budget(150 * factor, 5000)):
+        objects, g = gen_multi_serial(rng)
+        cases.append((objects, number_multi(g, rng, objects), "serial"))
+    return cases
+
+
+def run_multi(ctx: Ctx, cases, base=3000017):
+    holder = [simnet.VLoop()]
+    asyncio.set_event_loop(holder[0])
+    minimized = {}
+    found = []
+
+    def once(objects, groups, seed):
+        loop = holder[0]
+        try:
+            out = loop.run_until_complete(scenario_multi(loop, objects, groups, seed))
+            pend = [t for t in asyncio.all_tasks(loop) if not t.done()]
+            for t in pend:
+                t.cancel()
+            if pend:
+                loop.run_until_complete(asyncio.gather(*pend, return_exceptions=True))
+            return out
+        except HarnessBug:
+            raise
+        except Exception as e:  # noqa: BLE001
+            # (as in stream 'atomic') an observation about the library, not a harness crash; continue on a fresh loop
+            try:
+                for t in asyncio.all_tasks(loop):
+                    t.cancel()
+                loop.close()
+            except Exception:  # noqa: BLE001
+                pass
+            holder[0] = simnet.VLoop()
+            asyncio.set_event_loop(holder[0])
+            if isinstance(e, RuntimeError) and "does not settle" in str(e):
+                return [], [("loop-never-idle", "the event loop never became idle at one virtual instant (10000 iterations): callbacks keep re-scheduling themselves with no delay, "
+                                                "no request can complete or fail and virtual time cannot advance")], {}
+            return [], [("scenario-raised", f"{type(e).__name__}: {e} escaped from a library call made by the harness")], {}
+    try:
+        for i, (objects, groups, kind) in enumerate(cases):
+            seed = ctx.seed * 7919 + base + i if not isinstance(kind, tuple) else kind[1]
+            kind = kind if not isinstance(kind, tuple) else kind[0]
+            trace, problems, stats = once(objects, groups, seed)
+            ctx.evaluations += 1
+            ctx.nontrivial.add(("multi", json.dumps(objects, sort_keys=True), tuple(groups)))
+            ctx.dist["multi:kind:" + kind] += 1
+            ctx.dist["multi:objects:%d" % len(objects)] += 1
+            ctx.dist["multi:accessories:%d" % len({o["acc"] for o in objects.values()})] += 1
+            for o in objects.values():
+                ctx.dist[f"multi:object:{o['variant']}:limit{o['limit']}" + (":slow-close" if o.get("slow") else "")] += 1
+            for g in groups:
+                prims = g.split("+")
+                ctx.dist["multi:group-size:%d" % len(prims)] += 1
+                if len({x.partition(".")[0] for x in prims if "." in x[:2]}) > 1:
+                    ctx.dist["multi:group-across-connections"] += 1
+                for x in prims:
+                    f = x.partition(".")[2].split(":") if "." in x[:2] else x.split(":")
+                    ctx.dist["multi:act:" + f[0]] += 1
+                    if f[0] == "q":
+                        ctx.dist["multi:entry:" + {**ENTRY, "r": "request"}.get(f[2] if len(f) > 2 else "g", "?")] += 1
+            for k, v in stats.items():
+                ctx.dist["multi:" + k] += v
+            case = {"stream": "multi", "objects": objects, "groups": groups, "seed": seed}
+            if i in (5, len(cases) - 1):
+                ctx.sample(case)
+            seen = set()
+            for sig, text in problems:
+                if sig in seen:
+                    continue
+                seen.add(sig)
+                vcase = dict(case)
+                if sig not in minimized and len(minimized) < 4:
+                    def still(gs, sig=sig):
+                        _, pr, _ = once(objects, gs, seed)
+                        return any(s2 == sig for s2, _ in pr)
+                    small = shrink_list(groups, still)
+                    minimized[sig] = small
+                    vcase["minimized_groups"] = small
+                    text = text + f" [minimal history: {' ; '.join(small)}]"
+                text = text + f" [objects: {json.dumps(objects, sort_keys=True)}; history: {' ; '.join(trace)}]"
+                found.append(sig)
+                ctx.violation(f"multi/{sig}", text, vcase)
+    finally:
+        asyncio.set_event_loop(None)
+        holder[0].close()
+    return found
+
+
 def run(ctx: Ctx, driver: Driver):
     run_cases(ctx, driver, cases_for(ctx))
     run_atomic(ctx, atomic_cases(ctx, ctx.rng))
     # the request FIFO inside one loop iteration, against the Lean automaton ReqConn.Micro (theorems C08_micro_*)
     from harness.c08_micro import run_micro
     run_micro(ctx, driver)
+    # several connection objects alive at once (after the older streams: their random draws stay what they were)
+    run_multi(ctx, multi_cases(ctx, ctx.rng))
 
 
 def replay(ctx: Ctx, driver: Driver, case):
@@ -1164,7 +1947,9 @@ def replay(ctx: Ctx, driver: Driver, case):
     if case.get("stream") == "micro":
         from harness.c08_micro import replay_micro
         return replay_micro(ctx, driver, case)
-    if case.get("stream") == "atomic":
+    if case.get("stream") == "multi":
+        run_multi(ctx, [(case["objects"], case["groups"], ("replay", case["seed"]))])
+    elif case.get("stream") == "atomic":
         run_atomic(ctx, [(case["variant"], case["limit"], case["groups"], ("replay", case["seed"]))])
     else:
         run_cases(ctx, driver, [(case["variant"], case["limit"], case["events"], ("replay", case["seed"]) if "seed" in case else "replay")])
@@ -1183,3 +1968,5 @@ def search(ctx: Ctx, driver: Driver, broken):
     run_cases(ctx, driver, cases)
     if not ctx.violations:
         run_atomic(ctx, atomic_cases(ctx, rng, factor=4), base=2000003)
+    if not ctx.violations:
+        run_multi(ctx, multi_cases(ctx, rng), base=4000037)   # (the search tier already multiplies the sample counts by four)
